@@ -161,24 +161,17 @@ theorem inClass_labelRest (c : Char) (h : inClass labelNameRe.rest c = true) : l
   simp [labelRest, labelFirst, isLower, isUpper, isDig, inRange]
   omega
 
-/-- the part of `matchName` that exists only because `$` also matches before a final newline (finding F2) -/
-def f2Name (re : NameRe) (s : Str) : Bool :=
-  match s.getLast? with
-  | some '\n' => matchExact re s.dropLast
-  | _ => false
-
-theorem matchName_of_not_f2 (re : NameRe) (full : Bool) (s : Str) (h : f2Name re s = false)
+/-- with an exact end anchor (`\\Z` in the pattern, or `fullmatch` at the call site) `matchName` is `matchExact` -/
+theorem matchName_exact (re : NameRe) (full : Bool) (s : Str) (hd : (re.dollar && !full) = false)
     (hm : matchName re full s = true) : matchExact re s = true := by
   unfold matchName at hm
-  unfold f2Name at h
-  cases hl : s.getLast? with
-  | none => simpa [hl] using hm
-  | some c =>
-    by_cases hc : c = '\n'
-    · subst hc; simp [hl] at h hm; simpa [h] using hm
-    · simp [hl] at hm
-      rcases hm with hm | hm
-      · exact hm
-      · split at hm <;> simp_all
+  rw [Bool.or_eq_true] at hm
+  rcases hm with hm | hm
+  · exact hm
+  · rw [hd] at hm; simp at hm
+
+/-- T1 facts (repaired F2): the legacy-name tests of the expositions use an exact end anchor -/
+theorem metric_anchor_exact : (metricNameRe.dollar && !full_is_valid_legacy_metric_name) = false := by decide
+theorem label_anchor_exact : (labelNameRe.dollar && !full_is_valid_legacy_labelname) = false := by decide
 
 end PromVerif.Lemmas.Lines
